@@ -20,6 +20,22 @@ fn main() {
     let mode = args.get(2).cloned().unwrap_or_else(|| "quick".into());
     let code = match (id.as_str(), mode.as_str()) {
         ("validate-shapes", _) => c04::validate_shapes(),
+        ("trace-c30", i) => {
+            // dev helper: first scenario of the given kind index >= i that is a git-dependency one
+            let seed = simcore::rng::verif_seed();
+            let mut k: u64 = i.parse().unwrap_or(0);
+            loop {
+                let sc = c30::gen_scenario(simcore::rng::mix(seed, "C30", k));
+                if sc.kind == "shared-git-dependency" {
+                    let mut n = 0;
+                    let o = c30::run(&sc, &mut n);
+                    println!("scenario {k}: {:?}", o.map(|o| o.violation));
+                    break;
+                }
+                k += 1;
+            }
+            0
+        }
         ("trace-c04", i) => {
             // dev helper: run history <i> of the current seed once (PROCSIM_TRACE_DUMP=<file> records every gate)
             let sc = c04::gen_scenario(simcore::rng::mix(simcore::rng::verif_seed(), "C04", i.parse().unwrap_or(0)));
